@@ -5,9 +5,9 @@ Model of the VCF record layer of `mchap assemble / call / call-exact / call-pedi
 * producers (mirroring the code as it is)
   - `genotypeAsAlleles`, `gtEntries`, `formatGT`   : `assemble._genotype_as_alleles`, `io/vcf/records.py:format_sample_field`
   - `countAlleles`, `summarise`                    : `baseclass.py:sumarise_vcf_record` (AC / AN / UAN / NS / MCI / DP / RCOUNT, R-length sums)
-  - `assembleGPSize`, `assembleGPArray`            : `assemble._genotype_posterior_as_array` (array sized from `len(labels)`)
+  - `gpArraySize`, `assembleGPSize`, `assembleGPArray` : `assemble._genotype_posterior_as_array` (`n_alleles`, default `len(labels)`)
   - `callGArraySize`                               : `calling/classes.py:as_array`, `calling/exact.py:genotype_likelihoods`
-  - `relabelNAllele`                               : `GenotypeAllelesMultiTrace.relabel` (`labels.max() + 1`)
+  - `relabelNAllele`, `callRelabelNAllele`         : `GenotypeAllelesMultiTrace.relabel` (`n_allele`, default `labels.max() + 1`)
   - `round3`, `vcfstrScalar`, `vcfstrArrayElem`    : `io/vcf/util.py:vcfstr` on exact rationals
 * the validator `validRecord : Header → Record → Ctx → Except Err Unit` deciding every conjunct of C07 on
   a parsed record, and `parseLine` (columns of a text line → `Record`).
@@ -527,29 +527,43 @@ def parseLine (cols : List String) : Option Record :=
     number of haplotypes of the record (REF + ALT, masked or not) -/
 def callGArraySize (nAlt ploidy : Nat) : Nat := cwr (nAlt + 1) ploidy
 
-/-- `assemble._genotype_posterior_as_array`: `n_alleles = len(labels)`; the reference haplotype is popped
-    from `labels` when it was not called -/
+/-- number of entries of `labels` in assemble: the reference haplotype is popped when it was not called -/
 def assembleNLabels (nAlt : Nat) (refCalled : Bool) : Nat := if refCalled then nAlt + 1 else nAlt
 
+/-- `assemble._genotype_posterior_as_array(posterior, labels, n_alleles=None)`: the array is sized with
+    `n_alleles`, by default `len(labels)` -/
+def gpArraySize (nLabels : Nat) (nAlleles : Option Nat) (ploidy : Nat) : Nat :=
+  cwr (nAlleles.getD nLabels) ploidy
+
+/-- the program passes `n_alleles=len(haplotypes)`: the record's allele count, masked reference included
+    (since the repair of F3; before, it relied on the default and the array was too short under REFMASKED) -/
 def assembleGPSize (nAlt : Nat) (refCalled : Bool) (ploidy : Nat) : Nat :=
-  cwr (assembleNLabels nAlt refCalled) ploidy
+  gpArraySize (assembleNLabels nAlt refCalled) (some (nAlt + 1)) ploidy
 
 /-- `probabilities[idx] = prob` for every posterior genotype whose haplotypes are all labelled (sorted label
-    lists); `none` is the `IndexError` of an index beyond the array -/
-def assembleGPArray (nAlt : Nat) (refCalled : Bool) (ploidy : Nat) (entries : List (List Nat × Rat)) :
-    Option (List Rat) :=
+    lists) into an array of the given size; `none` is the `IndexError` of an index beyond the array -/
+def gpArrayFill (size : Nat) (entries : List (List Nat × Rat)) : Option (List Rat) :=
   entries.foldlM (fun arr e =>
       let idx := genotypeIndex e.1
       if idx < arr.length then some (arr.set idx e.2) else none)
-    (List.replicate (assembleGPSize nAlt refCalled ploidy) 0)
+    (List.replicate size 0)
 
-/-- `relabel`: `n_allele = labels.max() + 1` where `labels` are the record's allele numbers of the haplotypes
-    that stayed in the MCMC (prior frequency > 0 and not a masked reference) -/
-def relabelNAllele (labels : List Nat) : Nat := labels.foldl max 0 + 1
+/-- the program path -/
+def assembleGPArray (nAlt : Nat) (refCalled : Bool) (ploidy : Nat) (entries : List (List Nat × Rat)) :
+    Option (List Rat) :=
+  gpArrayFill (assembleGPSize nAlt refCalled ploidy) entries
+
+/-- `relabel(labels, n_allele=None)`: `n_allele` defaults to `labels.max() + 1`, where `labels` are the record's
+    allele numbers of the haplotypes that stayed in the MCMC (prior frequency > 0 and not a masked reference) -/
+def relabelNAllele (labels : List Nat) (nAllele : Option Nat) : Nat :=
+  nAllele.getD (labels.foldl max 0 + 1)
 
 /-- allele numbers kept for the MCMC given the mask (`np.where(~mask)[0]`) -/
 def keptLabels (mask : List Bool) : List Nat :=
   (List.range mask.length).filter (fun i => !(mask.getD i true))
+
+/-- call / call-pedigree pass `n_allele=len(haplotypes)` (since the repair of F4) -/
+def callRelabelNAllele (mask : List Bool) : Nat := relabelNAllele (keptLabels mask) (some mask.length)
 
 /-! ## `vcfstr` on exact rationals -/
 
